@@ -535,30 +535,37 @@ Fixpoint qualifiers (x : texpr) : list string :=
   end.
 
 (* ------------------------------------------------------------------ (b) method collection *)
+(* a selector declared by a named type: a method (with its signature) or — m_field — a struct
+   field, of which only the name matters: a field is never collected (Named.Method(i) does not
+   list it) but, in Go, a field shadows every deeper method of the same name *)
 Record meth := M { m_name : string; m_ps : list (pinfo * ty); m_variadic : bool;
-                   m_rs : list (pinfo * ty) }.
+                   m_rs : list (pinfo * ty); m_field : bool }.
+Definition is_meth (m : meth) : bool := negb (m_field m).
 
 (* a named type as namedTypeToInterface sees it: its own reference, the methods
-   Named.Method(i) (or, for a named interface, the interface's method set), and the types of
-   its embedded fields (T or *T with T named) in field order *)
+   Named.Method(i) (or, for a named interface, the interface's method set) together with the
+   names of its struct fields (embedded ones included: their name is the type name), and the
+   types of its embedded fields (T or *T with T named) in field order *)
 Inductive tree := Tr (self : ty) (own : list meth) (embedded : list tree).
 
 Definition t_self (t : tree) := match t with Tr s _ _ => s end.
 Definition t_own (t : tree) := match t with Tr _ o _ => o end.
 Definition t_emb (t : tree) := match t with Tr _ _ e => e end.
-Definition own_names (t : tree) : list string := map m_name (t_own t).
+Definition own_names (t : tree) : list string := map m_name (t_own t).       (* all selectors *)
+Definition meth_names (t : tree) : list string := map m_name (filter is_meth (t_own t)).
 
 Fixpoint height (t : tree) : nat :=
   match t with Tr _ _ embs => fold_right (fun x acc => Nat.max (S (height x)) acc) 0 embs end.
 
-(* Go's selector rule for methods of *T: the name must be declared exactly once at the
-   shallowest embedding depth at which it is declared at all *)
+(* Go's selector rule for methods of *T: the name must be declared (as a field or a method)
+   exactly once at the shallowest embedding depth at which it is declared at all, and that one
+   declaration must be a method *)
 Definition count_level (lvl : list tree) (n : string) : nat :=
   List.length (filter (fun t => mem n (own_names t)) lvl).
 Fixpoint ms_level (fuel : nat) (lvl : list tree) (n : string) : bool :=
   match count_level lvl n with
   | 0 => match fuel with O => false | S f => ms_level f (flat_map t_emb lvl) n end
-  | 1 => true
+  | 1 => existsb (fun t => mem n (meth_names t)) lvl
   | _ => false
   end.
 Definition go_ms (t : tree) (n : string) : bool := ms_level (height t) [t] n.
@@ -597,7 +604,7 @@ Definition merge_one {A} (name : A -> string) (st : list A * list string) (m : A
 Definition merge {A} (name : A -> string) (st : list A * list string) (ms : list A) :=
   fold_left (merge_one name) ms st.
 
-Definition visible (priv : bool) (m : meth) : bool := priv || exported (m_name m).
+Definition visible (priv : bool) (m : meth) : bool := is_meth m && (priv || exported (m_name m)).
 
 Section ToIface.
   Variable e : env.
@@ -634,12 +641,12 @@ Section Names.
   Variables priv emb : bool.
   Variable ms_filter : bool.
   Definition vis_names (t : tree) : list string :=
-    filter (fun n => priv || exported n) (own_names t).
+    filter (fun n => priv || exported n) (meth_names t).
 
   Fixpoint iface_names_gen (t : tree) : list string :=
     match t with
     | Tr self own embs =>
-        let own' := filter (fun n => priv || exported n) (map m_name own) in
+        let own' := filter (fun n => priv || exported n) (map m_name (filter is_meth own)) in
         if negb emb then own' else
         let acc := fold_left (fun acc f => merge (fun n : string => n) acc (iface_names_gen f))
                              embs ([], own') in
@@ -649,8 +656,8 @@ End Names.
 Definition iface_names (priv emb : bool) := iface_names_gen priv emb true.
 Definition iface_names_orig (priv emb : bool) := iface_names_gen priv emb false.
 
-(* the declaration Go selects for an own or promoted method name: the first embedding level
-   that declares it (when go_ms holds it is the only one at that level) *)
+(* the selector Go picks for a name: the first embedding level that declares it, as a field or
+   as a method (when go_ms holds it is the only declaration at that level, and a method) *)
 Fixpoint find_level (fuel : nat) (lvl : list tree) (n : string) : option meth :=
   match flat_map (fun t => filter (fun m => String.eqb (m_name m) n) (t_own t)) lvl with
   | m :: _ => Some m
